@@ -3,7 +3,7 @@
 import json, os, random, re
 from rig import common
 
-WRAPS = "write,read,pipe2,close,epoll_create1,calloc,free,pthread_create,pthread_join,timerfd_create,epoll_ctl"
+WRAPS = "write,read,pipe2,close,epoll_create1,calloc,free,pthread_create,pthread_join,timerfd_create,epoll_ctl,timerfd_settime"
 PVT = 50
 # life-cycle vocabulary of TpLife (consumed by TpTrace)
 LIFE_CREATE = {"call.create", "call.threads_create", "ret.threads_create", "hook.start", "hook.stop", "ret.create", "tcreate.starting", "tcreate.failed", "proc.enter",
